@@ -225,7 +225,7 @@ def check_bank(seq):
     srcfmt = ['export', 'tigerxml', 'discobrackets'][sum(seq) % 3]
     path = os.path.join(scratch(), 'bank.' + srcfmt)
     with open(path, 'w', encoding='utf-8') as f:
-        f.write({'export': codecs.encode_export, 'tigerxml': codecs.encode_tigerxml,
+        f.write({'export': codecs.encode_export, 'tigerxml': lambda m: codecs.encode_tigerxml(m, secedges=True, head=True),
                  'discobrackets': codecs.encode_discobrackets}[srcfmt](mts))
     fmtargs = ['--src-format', srcfmt]
     try:
